@@ -1,9 +1,20 @@
 (* C12 - YAML target caching is transparent: never stale, isolated, versions track data.
-   Property theorems only.  cache_transparent is proved in the _partial form stated below. *)
+   Property theorems only; each is closed by a lemma from the proof files.
+
+   Hypotheses about the hash H (version_for_str) - explicit premises of the theorems below:
+     H_inj      forall a b, H a = H b -> a = b          (no collisions; an idealisation of md5 / murmur3)
+     H_nobar    forall s, ~ In "|" (H s)                 (hex digits)
+     H_noplus   forall s, ~ In "+" (H s)                 (hex digits)
+     H_nonempty forall s, H s <> ""
+   (a fixed output length cannot be assumed together with global injectivity; "|"-freeness is what the
+   splitting of joined version strings needs).  Other premises: the variant has the "+" tag (e62fc38) and
+   does not re-render (fe12c42); yaml.safe_load returns well-formed values; every call is [faithful]: its
+   target matcher is the one its (system id, preceding-data version) stand for, i.e. the version
+   identifies the preceding data.  C12_hash_hypotheses_satisfiable instantiates them. *)
 From Coq Require Import String.
 From Coq Require Import List NArith ZArith Bool Arith Lia.
 From VF Require Import Base.Sx PyVal.Val PyVal.ValProofs PyVal.Codec Merge.Merge Yaml.Target Yaml.TargetProofs Yaml.Exec
-  Yaml.Cache Yaml.CacheProofs C12.Entry C12.EntryProofs.
+  Yaml.ExecProofs Yaml.Cache Yaml.CacheProofs Yaml.Validity Yaml.HistoryProofs C12.Entry C12.EntryProofs.
 Import ListNotations.
 
 (* ---- lru_spec ---- *)
@@ -36,21 +47,135 @@ Theorem C12_lru_get_marks_recent : forall (A : Type) k l (v : A),
 Proof. exact lru_get_moves_to_end. Qed.
 Print Assumptions C12_lru_get_marks_recent.
 
-(* ---- cache_transparent, partial ----
-   Proved: one get_data call over ANY cache state and capacity returns the specification's data for the
-   snapshot of that moment, provided the item stored for that system (if any) is usable for the call:
-   every layer answers "same version => same data" (item_ok: top_ok / oc_ok / res_ok of TargetProofs).
-   Missing for the full statement over histories: that every item the model stores stays usable for all
-   later calls (item_validity_is_state_independent: content validity of stored items + hash injective,
-   "|"- and "+"-free, so that equal versions imply equal rendered texts and equal piece lists).  The
-   defect variant below shows the statement is false without the "+" tag. *)
-Theorem C12_cache_transparent_partial : forall V C H yload cap st k,
+(* ---- item_validity_is_state_independent ----
+   [item_cvalid sys it] (Validity.v) speaks about the item alone: top = evaluation of some text under the
+   matcher of (sys, some version) with the version built from them; every file entry = what some text
+   parses to; result = merge of some valid piece list with its aggregate version.  Such an item is usable
+   ("same version => same data" in every layer) by every later call of that system, whatever the tree. *)
+Theorem C12_item_validity_is_state_independent : forall V C H yload mo,
+  tag_after V = true ->
+  (forall a b, H a = H b -> a = b) -> (forall s, ~ In BAR (H s)) -> (forall s, ~ In PLUS (H s)) -> (forall s, H s <> []) ->
+  forall sys pv it, item_cvalid V C H yload mo sys it -> item_ok V C H yload (mo sys pv) pv it.
+Proof. exact cvalid_usable. Qed.
+Print Assumptions C12_item_validity_is_state_independent.
+
+(* everything compile_data returns or stores is content valid again *)
+Theorem C12_compile_stores_valid_items : forall V C H yload mo,
+  (forall a b, H a = H b -> a = b) ->
+  forall render_o t sys pv, rerender V = false ->
+  (forall text v, yload text = Ok v -> wf v = true) ->
+  forall oc d v o, item_cvalid V C H yload mo sys oc ->
+  compile V C H render_o yload (mo sys pv) t pv oc = Ok (d, v, o) ->
+  cres_valid V C H yload (d, v) /\ match o with Some new => item_cvalid V C H yload mo sys new | None => True end.
+Proof. intros. eapply compile_valid; eauto. Qed.
+Print Assumptions C12_compile_stores_valid_items.
+
+(* the aggregate version determines the piece data - with the "+" tag *)
+Theorem C12_versions_determine_pieces : forall V H yload,
+  tag_after V = true ->
+  (forall a b, H a = H b -> a = b) -> (forall s, ~ In BAR (H s)) -> (forall s, ~ In PLUS (H s)) -> (forall s, H s <> []) ->
+  forall pl pl', Forall (piece_ok V H yload) pl -> Forall (piece_ok V H yload) pl' ->
+  aggregate_version H (map snd pl) = aggregate_version H (map snd pl') -> map fst pl = map fst pl'.
+Proof. exact aggregate_determines_pieces. Qed.
+Print Assumptions C12_versions_determine_pieces.
+
+(* ---- cache_transparent ----
+   for every history of calls (each with its own tree, rendered texts, system and preceding version),
+   over ANY cache that honours the contract "get returns nothing or an item stored under that key; get
+   and set store nothing but the item being set", started in a valid state: every get_data returns
+   exactly the specified data and version for the snapshot of that moment *)
+Theorem C12_cache_transparent_any_cache : forall V C H yload mo,
+  tag_after V = true -> rerender V = false ->
+  (forall text v, yload text = Ok v -> wf v = true) ->
+  (forall a b, H a = H b -> a = b) -> (forall s, ~ In BAR (H s)) -> (forall s, ~ In PLUS (H s)) -> (forall s, H s <> []) ->
+  forall (S : Type) (cget : str -> S -> option item * S) (cset : str -> item -> S -> S) (stored : S -> str -> item -> Prop),
+  (forall k st it st', cget k st = (Some it, st') -> stored st k it) ->
+  (forall k st o st' k' it, cget k st = (o, st') -> stored st' k' it -> stored st k' it) ->
+  (forall k v st k' it, stored (cset k v st) k' it -> (k' = k /\ it = v) \/ stored st k' it) ->
+  forall ks st, cache_valid V C H yload mo S stored st -> Forall (faithful mo) ks ->
+  history_with V C H yload S cget cset st ks = map (spec_full_of_call V C H yload) ks.
+Proof. intros. eapply history_transparent; eauto. Qed.
+Print Assumptions C12_cache_transparent_any_cache.
+
+(* YamlTargetSource.get_data over its LRU cache of any size, and over NullCache (size 0), from the empty cache *)
+Theorem C12_cache_transparent : forall V C H yload mo,
+  tag_after V = true -> rerender V = false ->
+  (forall text v, yload text = Ok v -> wf v = true) ->
+  (forall a b, H a = H b -> a = b) -> (forall s, ~ In BAR (H s)) -> (forall s, ~ In PLUS (H s)) -> (forall s, H s <> []) ->
+  forall cap ks, Forall (faithful mo) ks ->
+  run_history V C H yload cap [] ks = map (spec_full_of_call V C H yload) ks.
+Proof. exact lru_history_transparent. Qed.
+Print Assumptions C12_cache_transparent.
+
+(* ... which is what a newly constructed source returns at that moment *)
+Theorem C12_equals_fresh_source : forall V C H yload mo,
+  tag_after V = true -> rerender V = false ->
+  (forall text v, yload text = Ok v -> wf v = true) ->
+  (forall a b, H a = H b -> a = b) -> (forall s, ~ In BAR (H s)) -> (forall s, ~ In PLUS (H s)) -> (forall s, H s <> []) ->
+  forall cap ks, Forall (faithful mo) ks ->
+  run_history V C H yload cap [] ks = map (fresh_result V C H yload) ks.
+Proof.
+  intros V C H yload mo Ht Hr Hy Hi Hb Hp Hn cap ks Hf.
+  rewrite (lru_history_transparent V C H yload mo Ht Hr Hy Hi Hb Hp Hn cap ks Hf).
+  apply map_ext_in. intros k Hk. symmetry. rewrite Forall_forall in Hf.
+  apply (fresh_full V C H yload mo Ht Hr Hy Hi Hb Hp Hn k (Hf k Hk)).
+Qed.
+Print Assumptions C12_equals_fresh_source.
+
+(* ---- version_tracks_data: two specified results (of any two calls, in particular of one system) whose
+   data differ have different version strings ---- *)
+Theorem C12_version_tracks_data : forall V C H yload mo,
+  tag_after V = true -> rerender V = false ->
+  (forall text v, yload text = Ok v -> wf v = true) ->
+  (forall a b, H a = H b -> a = b) -> (forall s, ~ In BAR (H s)) -> (forall s, ~ In PLUS (H s)) -> (forall s, H s <> []) ->
+  forall k k' d v d' v', faithful mo k -> faithful mo k' ->
+  spec_full_of_call V C H yload k = Ok (d, v) -> spec_full_of_call V C H yload k' = Ok (d', v') ->
+  d <> d' -> v <> v'.
+Proof.
+  intros V C H yload mo Ht Hr Hy Hi Hb Hp Hn k k' d v d' v' Hf Hf' E E' Hd Ev. apply Hd.
+  exact (spec_version_tracks V C H yload mo Ht Hr Hy Hi Hb Hp Hn k k' d v d' v' Hf Hf' E E' Ev).
+Qed.
+Print Assumptions C12_version_tracks_data.
+
+(* ---- concurrency-ready form (for C19): calls interleaved arbitrarily ----
+   [run_events]: EGet i = call i reads its cache item and compiles on the snapshot it sees; ESet i = it
+   stores the item it built, any time later - after other calls' gets and sets, twice, or never.  Whatever
+   the event order, every call returns what is specified for the snapshot it read and the cache stays
+   valid: a concurrent set can only install another valid item. *)
+Theorem C12_concurrent_set_harmless : forall V C H yload mo,
+  tag_after V = true -> rerender V = false ->
+  (forall text v, yload text = Ok v -> wf v = true) ->
+  (forall a b, H a = H b -> a = b) -> (forall s, ~ In BAR (H s)) -> (forall s, ~ In PLUS (H s)) -> (forall s, H s <> []) ->
+  forall (S : Type) (cget : str -> S -> option item * S) (cset : str -> item -> S -> S) (stored : S -> str -> item -> Prop),
+  (forall k st it st', cget k st = (Some it, st') -> stored st k it) ->
+  (forall k st o st' k' it, cget k st = (o, st') -> stored st' k' it -> stored st k' it) ->
+  (forall k v st k' it, stored (cset k v st) k' it -> (k' = k /\ it = v) \/ stored st k' it) ->
+  forall calls, Forall (faithful mo) calls ->
+  forall evs st, cache_valid V C H yload mo S stored st ->
+    cache_valid V C H yload mo S stored (snd (run_events V C H yload S cget cset calls evs st [])) /\
+    Forall (fun ir => exists k, nth_error calls (fst ir) = Some k /\ snd ir = spec_full_of_call V C H yload k)
+           (fst (run_events V C H yload S cget cset calls evs st [])).
+Proof.
+  intros. eapply events_transparent; eauto. intros i sys it [].
+Qed.
+Print Assumptions C12_concurrent_set_harmless.
+
+(* the LRU cache of any size and the NullCache honour the cache contract used above *)
+Theorem C12_lru_honours_contract : forall cap,
+  (forall k st it st', cache_get cap k st = (Some it, st') -> lru_stored st k it) /\
+  (forall k st o st' k' it, cache_get cap k st = (o, st') -> lru_stored st' k' it -> lru_stored st k' it) /\
+  (forall k v st k' it, lru_stored (lru_set cap k v st) k' it -> (k' = k /\ it = v) \/ lru_stored st k' it).
+Proof. intros cap. split; [apply lru_get_sound' | split; [apply lru_get_keeps' | apply lru_set_keeps']]. Qed.
+Print Assumptions C12_lru_honours_contract.
+
+(* one call over a cache whose item is usable (kept: the step lemma under the weaker, snapshot-relative premise) *)
+Theorem C12_cache_transparent_step : forall V C H yload cap st k,
   rerender V = false ->
   (forall text v, yload text = Ok v -> wf v = true) ->
   (forall it, In (k_sys k, it) st -> usable V C H yload k it) ->
-  step_data (snd (get_data_step V C H yload cap st k)) = spec_of_call V C yload k.
+  step_data (snd (get_data_step V C H yload cap st k)) = spec_of_call V C H yload k.
 Proof. intros. now apply step_transparent. Qed.
-Print Assumptions C12_cache_transparent_partial.
+Print Assumptions C12_cache_transparent_step.
 
 (* with cache_size 0 the long-lived source is literally a new source at every call *)
 Theorem C12_null_cache_is_fresh : forall V C H yload ks st,
@@ -62,17 +187,23 @@ Print Assumptions C12_null_cache_is_fresh.
 Theorem C12_fresh_is_spec : forall V C H yload k,
   rerender V = false ->
   (forall text v, yload text = Ok v -> wf v = true) ->
-  step_data (fresh_result V C H yload k) = spec_of_call V C yload k.
+  step_data (fresh_result V C H yload k) = spec_of_call V C H yload k.
 Proof. intros. now apply fresh_data. Qed.
 Print Assumptions C12_fresh_is_spec.
 
-(* the executable checker accepts the model - proved for cache_size 0 and the per-call clauses
-   (returns_current_data, fresh_source_data, version_equals_fresh); for positive capacities the
-   acceptance is observed on every generated history (the harness reports a model that fails its
-   own checker) but not proved *)
-Theorem C12_holds_partial : forall c, valid c -> cCap c = 0%nat -> holds_steps c (cCalls c) (run_model c) = [].
-Proof. exact holds_steps_null. Qed.
-Print Assumptions C12_holds_partial.
+(* the executable checker used on the implementation's observations accepts the model: every history,
+   every cache size, all clauses (returns_current_data, fresh_source_data, version_equals_fresh,
+   version_tracks_data) *)
+Theorem C12_holds : forall c, valid c -> holds c (run_model c) = [].
+Proof. exact holds_model. Qed.
+Print Assumptions C12_holds.
+
+(* the hypotheses about H are satisfiable: the executable model's hash has all four properties *)
+Theorem C12_hash_hypotheses_satisfiable :
+  (forall a b, model_H a = model_H b -> a = b) /\ (forall s, ~ In BAR (model_H s)) /\
+  (forall s, ~ In PLUS (model_H s)) /\ (forall s, model_H s <> []).
+Proof. repeat split; [apply model_H_inj | apply model_H_nobar | apply model_H_noplus | apply model_H_nonempty]. Qed.
+Print Assumptions C12_hash_hypotheses_satisfiable.
 
 (* isolation: in the model a returned tree is a value; nothing a caller does to it can reach the cache
    state, which get_data_step threads explicitly.  The code half (deepcopy on return) is carried by the
@@ -99,9 +230,9 @@ Definition tree2 : fstree :=
    ([bs "b"; bs "Y.yaml"], File TY); ([bs "b"; bs "n.yaml"], File TZ)].
 Definition mt_w : list (str * res bool) := [(bs "*", Ok true)].
 Definition case_w (V : variants) : case :=
-  {| cV := V; cC := cfg0; cCap := 64; cYload := yl_w;
-     cCalls := [ {| q_sys := [115]%N; q_pv := []; q_tree := tree1; q_render := []; q_match := mt_w |};
-                 {| q_sys := [115]%N; q_pv := []; q_tree := tree2; q_render := []; q_match := mt_w |} ] |}.
+  {| cV := V; cC := cfg0; cCap := 64; cYload := yl_w; cMatch := [([115]%N, [], mt_w)];
+     cCalls := [ {| q_sys := [115]%N; q_pv := []; q_tree := tree1; q_render := [] |};
+                 {| q_sys := [115]%N; q_pv := []; q_tree := tree2; q_render := [] |} ] |}.
 Definition pre_e62fc38 : variants := {| tag_after := false; rerender := false; empty_raises := false |}.
 
 Theorem C12_refuted_e62fc38 :
@@ -118,12 +249,12 @@ Example C12_refuted_e62fc38_data :
     [Ok [(vs "k", VInt 1); (vs "m", VInt 1)]; Ok [(vs "k", VInt 2); (vs "m", VInt 1)]].
 Proof. split; vm_compute; reflexivity. Qed.
 
-(* non-vacuity of the partial theorems: a valid case with capacity 0 and a two-call history over
-   different snapshots; an empty cache state is usable for every call *)
+(* non-vacuity: a valid case with capacity 2, a two-call history over different snapshots, faithful calls *)
 Definition case_nv : case :=
-  {| cV := current_variants; cC := cfg0; cCap := 0; cYload := yl_w; cCalls := cCalls (case_w current_variants) |}.
+  {| cV := current_variants; cC := cfg0; cCap := 2; cYload := yl_w; cMatch := cMatch (case_w current_variants);
+     cCalls := cCalls (case_w current_variants) |}.
 Example C12_nonvacuous :
-  valid case_nv /\ cCap case_nv = 0%nat /\
+  valid case_nv /\ Forall (faithful (mo_of case_nv)) (map (mk_call case_nv) (cCalls case_nv)) /\
   map (fun p => step_data (fst p)) (run_model case_nv) =
     [Ok [(vs "k", VInt 1); (vs "m", VInt 1)]; Ok [(vs "k", VInt 2); (vs "m", VInt 1)]].
-Proof. repeat split; vm_compute; reflexivity. Qed.
+Proof. split; [vm_compute; reflexivity | split; [repeat constructor | vm_compute; reflexivity]]. Qed.
